@@ -171,6 +171,13 @@ class Number(ExcelType):
 
     blank_value = 0
 
+    def __new__(cls, value):
+        if isinstance(value, numpy.generic):
+            # Compute with the Python number: numpy scalars follow numpy's
+            # rules instead (2 ** numpy.int64(-2) raises ValueError).
+            value = value.item()
+        return super().__new__(cls, value)
+
     @property
     def is_whole(self):
         return isinstance(self.value, int)
